@@ -604,6 +604,13 @@ func init() {
 			}
 		}
 		r = append(r, inst(p, "VerifC06", "avc", "cenc", "16", "120,4", "true", "false"))
+		for i, sz := range []string{"2", "16", "108", "124", "130;17,3"} {
+			if tier != "thorough" && i%2 == 1 {
+				continue
+			}
+			r = append(r, inst(p, "VerifC06", "hevc", "cenc", []string{"16", "8"}[i%2], sz, "false", "false"))
+		}
+		r = append(r, inst(p, "VerifC06", "hevc", "cenc", "8", "16", "false", "true"))
 		// init and media segment decoded separately (IV size of senc guessed): 1 or 2 samples
 		for _, x := range [][3]string{{"avc", "8", "16"}, {"avc", "16", "16"}, {"avc", "16", "123;124"}, {"avc", "8", "130;16,3"}, {"aac", "16", "32;33"}, {"aac", "8", "17"}} {
 			r = append(r, inst(p, "VerifC06", x[0], "cenc", x[1], x[2], "false", "true"))
